@@ -63,12 +63,16 @@ pub struct Profile {
     pub queue: bool,
     /// large bodies ending the stream, tiny write budgets, frequent SETTINGS window changes while writes are blocked
     pub backpressure: bool,
+    /// the connection send window is the scarce resource: big stream windows, several streams whose reservations add up
+    /// to more than the connection window, reservations raised AND lowered while partly served, small connection-level
+    /// WINDOW_UPDATEs
+    pub starve: bool,
     /// the scripted peer never violates the protocol (no content-length, strictly within windows and limits)
     pub legal_peer: bool,
 }
 
 pub fn profile(name: &str) -> Profile {
-    let base = Profile { name: "mixed", w_conn_poll: 30, w_peer: 30, w_app: 40, w_io: 3, w_chaos: 0, w_end: 1, max_data: 3000, tiny_windows: false, small_limits: false, recv_heavy: false, control: false, queue: false, backpressure: false, legal_peer: false };
+    let base = Profile { name: "mixed", w_conn_poll: 30, w_peer: 30, w_app: 40, w_io: 3, w_chaos: 0, w_end: 1, max_data: 3000, tiny_windows: false, small_limits: false, recv_heavy: false, control: false, queue: false, backpressure: false, starve: false, legal_peer: false };
     match name {
         "flow" => Profile { name: "flow", tiny_windows: true, max_data: 400, w_io: 6, ..base },
         "limits" => Profile { name: "limits", small_limits: true, max_data: 200, ..base },
@@ -79,6 +83,7 @@ pub fn profile(name: &str) -> Profile {
         "legal" => Profile { name: "legal", legal_peer: true, w_end: 0, ..base },
         "bp" => Profile { name: "bp", backpressure: true, max_data: 3000, w_io: 14, w_peer: 32, w_app: 36, w_conn_poll: 30, ..base },
         "queue" => Profile { name: "queue", small_limits: true, queue: true, max_data: 100, w_app: 55, w_peer: 25, w_conn_poll: 20, w_io: 2, ..base },
+        "starve" => Profile { name: "starve", starve: true, max_data: 60, w_app: 55, w_peer: 20, w_conn_poll: 25, w_io: 1, w_end: 0, ..base },
         "control" => Profile { name: "control", w_end: 2, w_io: 5, control: true, ..base },
         _ => base,
     }
@@ -87,7 +92,10 @@ pub fn profile(name: &str) -> Profile {
 pub fn gen_config(rng: &mut Rng, client: bool, p: &Profile) -> Config {
     let mut c = Config::default_client();
     c.role_client = client;
-    if p.recv_heavy {
+    if p.starve {
+        c.peer_settings.push((4, *rng.pick(&[65535u32, 200000, 1000000])));
+        if rng.chance(1, 3) { c.max_send_buffer_size = Some(*rng.pick(&[100usize, 70000, 1000000])); }
+    } else if p.recv_heavy {
         c.initial_window_size = Some(*rng.pick(&[100u32, 1000, 3000, 10000, 65535]));
         if rng.chance(1, 2) { c.initial_connection_window_size = Some(*rng.pick(&[65535u32, 70000, 100000])); }
     } else if p.tiny_windows {
@@ -385,7 +393,8 @@ pub fn gen_peer(rng: &mut Rng, d: &Driver, pv: &mut PeerView, p: &Profile) -> Op
         }
         60..=79 => {
             // WINDOW_UPDATE (stream or connection)
-            let inc = *rng.pick(&[1u32, 2, 10, 100, 1000, 16384, 65535, 100000]);
+            let inc = if p.starve { *rng.pick(&[1u32, 5, 10, 20, 50]) } else { *rng.pick(&[1u32, 2, 10, 100, 1000, 16384, 65535, 100000]) };
+            if p.starve && rng.chance(2, 3) { return None; }
             if live.is_empty() || rng.chance(1, 3) {
                 Some(peer_bytes(wire::window_update(0, inc), json!({"t":"WINDOW_UPDATE","sid":0,"inc":inc})))
             } else {
@@ -509,11 +518,38 @@ pub fn gen_app(rng: &mut Rng, d: &Driver, p: &Profile) -> Option<Value> {
         return if d.conn_woken() { Some(json!({"op":"poll_accept"})) } else { None };
     }
     if nh == 0 { return None; }
+    if p.starve && rng.chance(3, 4) {
+        let cands: Vec<usize> = (0..nh).filter(|&i| d.handles[i].send.is_some() && !d.handles[i].send_done).collect();
+        if !cands.is_empty() {
+            let h = *rng.pick(&cands);
+            return Some(match rng.below(20) {
+                0..=5 => json!({"op":"reserve","h":h,"n": *rng.pick(&[65485u64, 65535, 40000, 30000, 100000, 20000])}),
+                6..=10 => json!({"op":"reserve","h":h,"n": *rng.pick(&[0u64, 10, 20, 30, 40, 100, 1000])}),
+                11..=12 => json!({"op":"send_data","h":h,"len": rng.range(1, 40),"eos": rng.chance(1, 2)}),
+                13 => json!({"op":"send_trailers","h":h}),
+                14..=16 => json!({"op":"capacity","h":h}),
+                _ => json!({"op":"poll_capacity","h":h}),
+            });
+        }
+    }
     if p.backpressure && rng.chance(1, 3) {
         let cands: Vec<usize> = (0..nh).filter(|&i| d.handles[i].send.is_some() && !d.handles[i].send_done).collect();
         if !cands.is_empty() {
             let h = *rng.pick(&cands);
             return Some(json!({"op":"send_data","h":h,"len": rng.range(9000, 50000),"eos": rng.chance(2, 3)}));
+        }
+    }
+    if p.recv_heavy && rng.chance(1, 12) {
+        // drop the receive half while another handle keeps the stream alive (early response, body ignored) ...
+        let cands: Vec<usize> = (0..nh).filter(|&i| { let x = &d.handles[i]; x.recv.is_some() && !x.recv_done && (x.send.is_some() || x.respond.is_some()) }).collect();
+        if !cands.is_empty() { return Some(json!({"op":"drop_recv","h": *rng.pick(&cands)})); }
+    }
+    if p.recv_heavy && rng.chance(1, 14) {
+        // ... and later the remaining handles of such a stream
+        let cands: Vec<usize> = (0..nh).filter(|&i| { let x = &d.handles[i]; x.recv.is_none() && x.recv_fc.is_none() && (x.send.is_some() || x.respond.is_some()) }).collect();
+        if !cands.is_empty() {
+            let h = *rng.pick(&cands);
+            return Some(if d.handles[h].respond.is_some() { json!({"op":"drop_respond","h":h}) } else { json!({"op":"drop_send","h":h}) });
         }
     }
     if p.recv_heavy && rng.chance(1, 2) {
